@@ -35,7 +35,7 @@ contract(f"{VC}:VBSClusteringManager.cancel_join", shapes={"self": MGR}, modifie
 contract(f"{VC}:VBSClusteringManager.confirm_join_failed", shapes={"self": MGR}, modifies=["self.*"], ensures=INV, **S)
 contract(f"{VC}:VBSClusteringManager.trigger_leave_cluster", shapes={"self": MGR, "reason": T.enum(f"{VC}:ClusterLeaveReason")},
          modifies=["self.*"], inline=[f"{VC}:VBSClusteringManager.cancel_join"],
-         ensures=dict(INV, passive_member_resumes="implies(old(is_passive(self)), self._state is VBSState.VRU_ACTIVE_STANDALONE and transmits(self) and self._leave_started == now())"), **S)
+         ensures=dict(INV, leave_notification_names_the_cluster_that_was_left="implies(old(is_passive(self)) and self._state is VBSState.VRU_ACTIVE_STANDALONE, self._leave_substate is _LeaveSubstate.NOTIFY and self._leave_cluster_id == old(self._joined_cluster_id))", passive_member_resumes="implies(old(is_passive(self)), self._state is VBSState.VRU_ACTIVE_STANDALONE and transmits(self) and self._leave_started == now())"), **dict(S, props=["C18", "C11"]))
 contract(f"{VC}:VBSClusteringManager.trigger_breakup_cluster", shapes={"self": MGR, "reason": T.enum(f"{VC}:ClusterBreakupReason")},
          modifies=["self.*"],
          ensures=dict(INV, warning_phase_starts="implies(result, is_leader(self) and self._cluster.breakup_started == now())"), **S)
@@ -45,7 +45,7 @@ contract(f"{VC}:VBSClusteringManager.should_transmit_vam", shapes={"self": MGR},
 contract(f"{VC}:VBSClusteringManager.update",
          shapes={"self": MGR, "own_lat": T.float(), "own_lon": T.float(), "own_speed": T.float(), "own_heading": T.float()},
          modifies=["self.*"], inline=[f"{VC}:VBSClusteringManager.confirm_join_failed"],
-         ensures=dict(INV,
+         ensures=dict(INV, leave_notification_names_the_cluster_that_was_left="implies(old(is_passive(self)) and self._state is VBSState.VRU_ACTIVE_STANDALONE, self._leave_substate is _LeaveSubstate.NOTIFY and self._leave_cluster_id == old(self._joined_cluster_id))", 
                       leader_lost_resumes_transmission="implies(old(is_passive(self)) and now() - old(self._last_leader_vam_time) >= CLUSTER_CONTINUITY_S, self._state is VBSState.VRU_ACTIVE_STANDALONE and transmits(self))",
                       passive_kept_while_leader_heard="implies(old(is_passive(self)) and now() - old(self._last_leader_vam_time) < CLUSTER_CONTINUITY_S, is_passive(self))",
                       breakup_after_warning="implies(old(is_leader(self)) and old(self._cluster.breakup_started) is not None and now() - old(self._cluster.breakup_started) >= BREAKUP_WARNING_S, self._state is VBSState.VRU_ACTIVE_STANDALONE and transmits(self))",
@@ -54,7 +54,7 @@ contract(f"{VC}:VBSClusteringManager.update",
                       join_wait_starts_when_notification_ends="implies(old(self._state is VBSState.VRU_ACTIVE_STANDALONE) and old(self._join_substate is _JoinSubstate.NOTIFY) and self._join_substate is _JoinSubstate.WAITING, self._join_started == now())",
                       join_wait_fails_after_half_second="implies(old(self._state is VBSState.VRU_ACTIVE_STANDALONE) and old(self._join_substate is _JoinSubstate.WAITING), (self._join_substate is _JoinSubstate.FAILED) == (now() - old(self._join_started) >= JOIN_SUCCESS_S))",
                       leave_notification_lasts_1s="implies(old(self._state is VBSState.VRU_ACTIVE_STANDALONE) and old(self._leave_substate is _LeaveSubstate.NOTIFY), (self._leave_substate is _LeaveSubstate.NONE) == (now() - old(self._leave_started) >= LEAVE_NOTIFICATION_S))",
-                      never_silenced_by_update="implies(old(transmits(self)) and not old(is_passive(self)), transmits(self))"), **S)
+                      never_silenced_by_update="implies(old(transmits(self)) and not old(is_passive(self)), transmits(self))"), **dict(S, props=["C18", "C11"]))
 
 # ---------------------------------------------------------------- received VAMs (decoder schema: CHOICEs are tuples)
 BBOX = T.oneof(T.tuple(T.const("circular"), T.dict(radius=(T.int(0, 4095), "optional"))),
@@ -74,12 +74,12 @@ VAM = T.dict(
             clusterLeaveInfo=(T.dict(_open=True, clusterId=T.int(0, 255)), "optional"),
             clusterBreakupInfo=(T.dict(_open=True, breakupTime=T.int(0, 127), clusterBreakupReason=T.strs("notProvided", "clusteringPurposeCompleted", "leaderMovedOutOfClusterBoundingBox", "joiningAnotherCluster", "enteringLowRiskAreaBasedOnMaps", "receptionOfCpmContainingCluster")), "optional")), "optional"))))
 contract(f"{VC}:VBSClusteringManager.on_received_vam", shapes={"self": MGR, "vam": VAM}, modifies=["self.*"],
-         ensures=dict(INV,
+         ensures=dict(INV, leave_notification_names_the_cluster_that_was_left="implies(old(is_passive(self)) and self._state is VBSState.VRU_ACTIVE_STANDALONE, self._leave_substate is _LeaveSubstate.NOTIFY and self._leave_cluster_id == old(self._joined_cluster_id))", 
                       join_completes_on_leader_vam="implies(old(self._state is VBSState.VRU_ACTIVE_STANDALONE) and old(self._join_substate is _JoinSubstate.WAITING) and advertises_cluster(vam, old(self._join_target_cluster_id)) and not has_breakup_info(vam), is_passive(self) and self._joined_cluster_id == old(self._join_target_cluster_id) and self._leader_station_id == vam['header']['stationId'])",
                       leader_vam_rearms_timer="implies(old(is_passive(self)) and is_passive(self) and vam['header']['stationId'] == old(self._leader_station_id), self._last_leader_vam_time == now())",
                       only_the_leader_rearms_the_timer="implies(old(is_passive(self)) and is_passive(self) and vam['header']['stationId'] != old(self._leader_station_id), self._last_leader_vam_time == old(self._last_leader_vam_time))",
                       breakup_by_leader_resumes="implies(old(is_passive(self)) and vam['header']['stationId'] == old(self._leader_station_id) and announces_breakup(vam), self._state is VBSState.VRU_ACTIVE_STANDALONE and transmits(self))"),
-         **S)
+         **dict(S, props=["C18", "C11"]))
 
 contract(f"{VC}:VBSClusteringManager.get_cluster_information_container", shapes={"self": MGR},
          props=["C18", "C11"], mode="int", spec_module="spec_vbs", float_as_real=True, frame_check=False, requires=["inv(self)"],
